@@ -86,6 +86,9 @@ func TestRecordV2(t *testing.T) {
 			r.free.Store(true)
 			close(r.freeCh)
 			close(r.gate)
+			if cfg.Extra["stall"] == true {
+				r.stall()
+			}
 			r.finish()
 			rec := resetV2(cfg, i, "v2rand", r.faultBad)
 			rec["seed"], rec["steps"] = seed, steps
